@@ -182,8 +182,14 @@ func worldC07(w *World) {
 			if err == nil && st == 200 && rep != nil {
 				sid = rep.ID
 			}
-			odd := []string{`[123]`, `[null]`, `[{"a":1}]`, `[["x"]]`, `17`, `null`, `{"k":"v"}`, `["a","b"]`, `[]`}
-			body := `[{"id":"` + sid + `","msg":` + odd[len(r.tok+sid)%len(odd)] + `},{"id":"` + sid + `","msg":` + odd[(len(sid)+int(r.at/time.Millisecond))%len(odd)] + `}]`
+			odd := []string{`[123]`, `[null]`, `[{"a":1}]`, `[["x"]]`, `17`, `null`, `{"k":"v"}`, `["a","b"]`, `[]`, `[true]`, `[1.5]`}
+			// one odd message per post (a rejected message ends its post), several posts
+			k0 := len(r.tok+sid) + int(r.at/time.Millisecond)
+			for j := 0; j < 3; j++ {
+				b := `[{"id":"` + sid + `","msg":` + odd[(k0+j*4)%len(odd)] + `}]`
+				sc.call("data", []byte(b))
+			}
+			body := `[{"id":"` + sid + `","msg":` + odd[(k0+1)%len(odd)] + `}]`
 			req, _ = http.NewRequest("POST", "http://proxy:80/shim/data", strings.NewReader(body))
 			w.K.Count("fault.shim_odd_message")
 		case "shim-unknown-close":
